@@ -509,7 +509,7 @@ class PageLayout(object):
                 else:
                     crop_engine = EngineLineCropper(poly=2)
                     line_coords = crop_engine.get_crop_inputs(line.baseline, line.heights, 16)
-                    space_idxs = [pos for pos, char in enumerate(line.transcription) if char == ' ']
+                    space_idxs = [pos for pos, char in enumerate(line.transcription) if char.isspace()]
 
                     words = []
                     space_idxs = [-1] + space_idxs + [len(aligned_letters)]
@@ -811,7 +811,7 @@ class PageLayout(object):
                 else:
                     crop_engine = EngineLineCropper(poly=2)
                     line_coords = crop_engine.get_crop_inputs(line.baseline, line.heights, 16)
-                    space_idxs = [pos for pos, char in enumerate(line.transcription) if char == ' ']
+                    space_idxs = [pos for pos, char in enumerate(line.transcription) if char.isspace()]
 
                     words = []
                     space_idxs = [-1] + space_idxs + [len(aligned_letters)]
